@@ -1051,7 +1051,8 @@ func readKnown(path, prop string) map[string]string {
 func trustedBase(sp *Specs, pk map[string]bool) []string {
 	out := []string{
 		"govc (Go-to-SMT translation of the supported subset) and the SMT solvers z3 4.8.12, z3 5.1.0, cvc5 1.0",
-		"finite-sum lemma instances for msum/msumR emitted at map writes, deletes and map-range loops (true of finite Go maps)",
+		"ground instances of the lemma schemas for msum/msumR/lsum/pset/pow2m1 emitted at map writes, deletes, range loops and appends: the schemas are machine-checked in /verif/lean/SumLemmas.lean (Lean 4 + Mathlib, ./check.sh lemmas); trusted: that what is emitted is an instance of them",
+		"an object never exceeds MaxInt bytes (size*cap <= MaxInt for slices of elements of 2 or more bytes)",
 		"assumed contracts of external functions in /verif/specs/externals.spec",
 		"Go channel semantics (FIFO, exactly-once, close observed after buffered items) and the Go memory model for channel hand-off",
 		"partial correctness: no termination claims",
